@@ -1106,6 +1106,14 @@ def check_const(ctx, cr, decl):
         fn = lst[0]
         if fn.get("self_kind") == "mut":
             continue
+        listed = {"raw_value", "new_with_raw_value", "builder", "build"}
+        if decl["kind"] == "struct":
+            for f in decl["fields"]:
+                nm = f["name"].replace("r#", "")
+                listed.add(nm)
+                listed.add("with_" + nm)
+        if name not in listed:
+            continue  # helpers outside the list of operations the property names (e.g. the deprecated new())
         ctx.ob({"C15"}, "%s::%s|const_fn" % (a, name), bool(fn.get("const")), "`%s::%s` is not a const fn" % (a, name) if not fn.get("const") else "",
                sample={"fn": "%s::%s" % (a, name), "const": fn.get("const")})
         for run in fn.get("runs", []):
@@ -1327,58 +1335,60 @@ def check_debug(ctx, cr, s):
         ctx.ob({"C19"}, okey, None, prob)
         return
     calls = o["calls"]
-    want = []
-    want.append(("debug_struct", s["name"]))
-    for f in s["fields"]:
-        nm = f["name"]
-        want.append(("getter", nm.replace("r#", "")))
-        want.append(("field", nm))
-    want.append(("finish", None))
     prob = None
-    if len(calls) != len(want):
-        prob = "expected %d calls (debug_struct, one getter+field per declared field, finish), found %d: %s" % (len(want), len(calls), [c["callee"].split("::")[-1] for c in calls][:12])
-    else:
-        last_ds = None
-        last_get = None
-        for c, (kind, arg) in zip(calls, want):
-            cal = c["callee"]
-            if kind == "debug_struct":
-                if not cal.startswith("core::fmt::Formatter") or not cal.endswith("debug_struct") or c["args"][1] != {"str": arg}:
-                    prob = "first call must be Formatter::debug_struct(\"%s\"), found %s %s" % (arg, cal, json.dumps(c["args"][1:])[:60])
-                    break
-                last_ds = "c%d" % c["n"]
-            elif kind == "getter":
-                if cal.replace("r#", "") != "%s::%s" % (path, arg):
-                    prob = "expected a call to the getter %s::%s, found %s" % (path, arg, cal)
-                    break
-                a0 = c["args"][0] if c["args"] else None
-                if not arg_is_param(a0, "p0"):
-                    prob = "getter %s is not called on self" % arg
-                    break
-                last_get = "c%d" % c["n"]
-            elif kind == "field":
-                if not cal.startswith("core::fmt::DebugStruct") or not cal.endswith("::field"):
-                    prob = "expected DebugStruct::field, found %s" % cal
-                    break
-                if c["args"][1] != {"str": arg}:
-                    prob = "field label %s, expected \"%s\"" % (json.dumps(c["args"][1]), arg)
-                    break
-                if not arg_is_param(c["args"][0], last_ds):
-                    prob = "field() is not chained on the DebugStruct of this impl"
-                    break
-                if not arg_is_param(c["args"][2], last_get):
-                    prob = "value printed for `%s` is not the getter's result: %s" % (arg, json.dumps(c["args"][2])[:100])
-                    break
-                last_ds = "c%d" % c["n"]
-            elif kind == "finish":
-                if not cal.startswith("core::fmt::DebugStruct") or not cal.endswith("::finish"):
-                    prob = "expected DebugStruct::finish, found %s" % cal
-                    break
-                if not arg_is_param(c["args"][0], last_ds):
-                    prob = "finish() is not chained on the DebugStruct of this impl"
-                    break
-                if o["v"] != {"o": "c%d" % c["n"]}:
-                    prob = "fmt does not return finish()'s result"
+    # structural reading, independent of how getter calls and field() calls are interleaved:
+    #   one debug_struct(name) first, finish() last and returned, field(label, &v) once per declared field in
+    #   declaration order, each v being the result of that field's getter called on self; nothing else is called
+    getters = {}
+    fields_seen = []
+    ds_chain = None
+    finish = None
+    for c in calls:
+        cal = c["callee"].replace("r#", "")
+        last = cal.split("::")[-1]
+        if cal.startswith("core::fmt::Formatter") and last == "debug_struct":
+            if ds_chain is not None:
+                prob = "debug_struct called twice"
+                break
+            if c["args"][1] != {"str": s["name"]}:
+                prob = "debug_struct is given %s, expected the struct name \"%s\"" % (json.dumps(c["args"][1])[:60], s["name"])
+                break
+            if fields_seen or finish:
+                prob = "debug_struct is not the first formatting call"
+                break
+            ds_chain = "c%d" % c["n"]
+        elif cal.startswith(path + "::") and c["args"] and arg_is_param(c["args"][0], "p0") and len(c["args"]) == 1:
+            getters["c%d" % c["n"]] = last
+        elif cal.startswith("core::fmt::DebugStruct") and last == "field":
+            if ds_chain is None or not arg_is_param(c["args"][0], ds_chain):
+                prob = "field() is not chained on the DebugStruct of this impl"
+                break
+            src = None
+            for g in getters:
+                if arg_is_param(c["args"][2], g):
+                    src = g
+            fields_seen.append((c["args"][1].get("str") if isinstance(c["args"][1], dict) else None, getters.get(src)))
+            ds_chain = "c%d" % c["n"]
+        elif cal.startswith("core::fmt::DebugStruct") and last == "finish":
+            if ds_chain is None or not arg_is_param(c["args"][0], ds_chain):
+                prob = "finish() is not chained on the DebugStruct of this impl"
+                break
+            finish = "c%d" % c["n"]
+        else:
+            prob = "unexpected call %s in the Debug impl" % cal
+            break
+    if not prob:
+        want_fields = [(f["name"], f["name"].replace("r#", "")) for f in s["fields"]]
+        if ds_chain is None:
+            prob = "Formatter::debug_struct is never called"
+        elif finish is None or o["v"] != {"o": finish}:
+            prob = "fmt does not return DebugStruct::finish()'s result"
+        elif [x[0] for x in fields_seen] != [w[0] for w in want_fields]:
+            prob = "printed fields %s differ from the declared fields %s" % ([x[0] for x in fields_seen][:10], [w[0] for w in want_fields][:10])
+        else:
+            for (label, g), (wl, wg) in zip(fields_seen, want_fields):
+                if g != wg:
+                    prob = "the value printed for `%s` is %s, not the result of the getter `%s` on self" % (label, "the result of `%s`" % g if g else "something else", wg)
                     break
     ctx.ob({"C19"}, okey, prob is None, prob or "", sample={"decl": path, "calls": [c["callee"].split("::")[-1] for c in calls]})
 
